@@ -818,3 +818,5 @@ m('C19', '_get_points: relative receivers not resolved (defect F11)', MP,
 m('C17', 'misfit cached as DataArray and returned via .data (defect F12)', SIMS,
   "            self._misfit = float(misfit.data)\n\n        return self._misfit\n",
   "            self._misfit = misfit\n\n        return self._misfit.data\n", 'C17.K2.plain')
+m('C01', 'krylov: info == 0 taken for success also with maxit 0 (defect F13)', SOLVER,
+  "    elif i > 0 or var.ssl_maxit < 1:", "    elif i > 0:", 'C01.R1')
